@@ -27,6 +27,7 @@ pub enum PKey {
     Can,
     Refuse,
     Log,
+    TrapUninstall,
 }
 
 #[contract]
@@ -57,7 +58,15 @@ impl MockPolicy {
         e.storage().instance().set(&PKey::Log, &l);
     }
     pub fn install(_e: &Env, _install_params: Val, _context_rule: ContextRule, _smart_account: Address) {}
-    pub fn uninstall(_e: &Env, _context_rule: ContextRule, _smart_account: Address) {}
+    /// A policy may fail in its uninstall hook; the account must complete the removal all the same.
+    pub fn set_trap_uninstall(e: &Env, trap: bool) {
+        e.storage().instance().set(&PKey::TrapUninstall, &trap);
+    }
+    pub fn uninstall(e: &Env, _context_rule: ContextRule, _smart_account: Address) {
+        if e.storage().instance().get(&PKey::TrapUninstall).unwrap_or(false) {
+            panic!("policy fails to uninstall");
+        }
+    }
 }
 
 /// Target of end-to-end `execute` calls.
